@@ -31,15 +31,22 @@ def main():
     prop = sys.argv[1]
     keep = '--keep' in sys.argv
     allprops = '--all' in sys.argv
-    names = [a for a in sys.argv[2:] if not a.startswith('--')]
-    out = '/tmp/wt/%s.out' % prop
+    args = sys.argv[2:]
+    sub, tag = 'out', ''
+    for a in list(args):
+        if a.startswith('--dir='):
+            sub = a.split('=', 1)[1]; args.remove(a)
+        if a.startswith('--tag='):
+            tag = a.split('=', 1)[1]; args.remove(a)
+    names = [a for a in args if not a.startswith('--')]
+    out = '/tmp/wt/%s.%s' % (prop, sub)
     if not names:
         names = sorted(f[:-5] for f in os.listdir(out) if f.endswith('.diff'))
     head = ensure_eval()
     for m in names:
         diff = os.path.join(out, m + '.diff')
         demo = os.path.join(out, m + '_demo.py')
-        res = dict(id='%s-%s' % (prop, m), property=prop, base_commit=head)
+        res = dict(id='%s-%s%s' % (prop, tag, m), property=prop, base_commit=head)
         a = sh('git -C %s apply %s' % (EV, diff))
         if a.returncode:
             print(m, 'PATCH DOES NOT APPLY', a.stderr[:200])
@@ -68,14 +75,14 @@ def main():
         confirmed = d1.returncode != 0 and d0.returncode == 0 and res['suite_ok']
         res['confirmed'] = confirmed
         res['detected'] = (code == 1)
-        print('%s-%s  confirmed=%s (demo with=%s without=%s, suite: %s)  CHECK exit=%s %s' % (
-            prop, m, confirmed, d1.returncode, d0.returncode, res['suite_with_change'], code, 'DETECTED' if code == 1 else 'MISSED' if code == 0 else 'ANALYSIS-ERROR'))
+        print('%s-%s%s  confirmed=%s (demo with=%s without=%s, suite: %s)  CHECK exit=%s %s' % (
+            prop, tag, m, confirmed, d1.returncode, d0.returncode, res['suite_with_change'], code, 'DETECTED' if code == 1 else 'MISSED' if code == 0 else 'ANALYSIS-ERROR'))
         for l in viol[:6]:
             print('      ', l[:230])
         if others:
             print('       other properties reacting:', others)
         if keep and confirmed:
-            dst = os.path.join(V, 'seeded', '%s-%s' % (prop, m))
+            dst = os.path.join(V, 'seeded', '%s-%s%s' % (prop, tag, m))
             os.makedirs(dst, exist_ok=True)
             shutil.copy(diff, os.path.join(dst, 'patch.diff'))
             shutil.copy(demo, os.path.join(dst, 'demo.py'))
